@@ -95,7 +95,8 @@ _EV = None
 
 
 def tables(thorough):
-    """Per-process event tables: prebuilt Certificate objects (shared between snapshots) and messages."""
+    """Per-process event tables: prebuilt Certificate objects (shared between snapshots) and messages.
+    ``thorough`` selects the wide chain pool."""
     global _EV
     if _EV is not None and _EV["thorough"] == thorough:
         return _EV
@@ -422,12 +423,28 @@ def _issuing_job(args):
 def run(ctx):
     thorough = ctx.tier == "thorough"
     depth = 4 if thorough else 3
-    r, n_events = explore_store(thorough, ctx.seed, depth)
+    r, n_events = explore_store(False, ctx.seed, depth)
     for rec, hist in r.violations:
-        ctx.violation(rec, replay=dict(part="store", thorough=thorough, history=hist))
+        ctx.violation(rec, replay=dict(part="store", thorough=False, history=hist))
     ctx.parts["store_bfs"] = dict(states=r.states, transitions=r.transitions, max_depth=r.max_depth, alphabet=n_events,
                                   graph_closed=r.complete, cap=r.cap_hit, xchecks=r.xchecks, pruned_at_known_divergence=r.pruned,
                                   outcomes=sorted(json.dumps(list(o)) for o in r.outcomes)[:40])
+    if thorough:        # wide chain pool (every 1/2/3-sequence of 12 certificates), shallower
+        global _EV
+        _EV = None
+        r2, n2 = explore_store(True, ctx.seed, 2)
+        for rec, hist in r2.violations:
+            ctx.violation(rec, replay=dict(part="store", thorough=True, history=hist))
+        ctx.parts["store_bfs_wide_chain_pool"] = dict(states=r2.states, transitions=r2.transitions, max_depth=r2.max_depth, alphabet=n2,
+                                                      graph_closed=r2.complete, cap=r2.cap_hit, xchecks=r2.xchecks,
+                                                      pruned_at_known_divergence=r2.pruned)
+        r.transitions += r2.transitions
+        r.xchecks += r2.xchecks
+        r.pruned += r2.pruned
+        r.hashes |= r2.hashes
+        r.states = len(r.hashes)
+        r.outcomes |= r2.outcomes
+        _EV = None
     with mp.Pool(16) as pool:
         # part B
         nb = accb = 0
